@@ -54,6 +54,8 @@ var targets = []string{
 	"bmtree.PathToIndex", "bmtree.PathToIndexLoose",
 	"bitmap.FromStr32", "bmtree.PathOf",
 	"bitmap.TailBitmap.Get", "bitmap.TailBitmap.Get1", "bitword.bitWord.Get", "bitword.bitWord.FirstDiff",
+	// translated for change detection only (lib/trans_changed.py): no equality proof yet
+	"bitmap.Select32", "bitmap.Select32R64", "bitmap.select32single", "bitmap.selectU64Indexed", "bitmap.indexSelectU64", "bitword.newBW",
 	"iohelper.NewSectionWriter", "iohelper.AtToWriter",
 	"iohelper.SectionWriter.Seek", "iohelper.SectionWriter.Size",
 	// loops: recursion on explicit fuel
@@ -87,6 +89,11 @@ var mathBits = map[string]string{
 var tables = map[string]string{
 	"bitmap.Mask": "Mask", "bitmap.RMask": "RMask", "bitmap.MaskUpto": "MaskUpto", "bitmap.RMaskUpto": "RMaskUpto",
 	"bitmap.Bit": "Bit", "bitmap.RBit": "RBit",
+}
+
+// package-level arrays whose model constant is a list (read with nthZ; the length is the model's, pinned by DESIGN 4.2)
+var listTables = map[string]string{
+	"bitmap.select8Lookup": "Select.select8Lookup",
 }
 
 // package-level slice variables (read-only tables) -> the model's constants
@@ -137,7 +144,7 @@ var records = map[string]*recordCfg{
 
 const preamble = `From Coq Require Import ZArith List Bool String.
 From Low Require Import Lib.MachInt Lib.Bits Lib.BitSeq Lib.TransLib.
-From Low Require Model.BmtreeIndex Model.BmtreeIndexToPath Model.SectionWriter Model.TailBitmap Model.Bitword.
+From Low Require Model.BmtreeIndex Model.BmtreeIndexToPath Model.SectionWriter Model.TailBitmap Model.Bitword Model.Select.
 Import ListNotations.
 Open Scope Z_scope.
 `
@@ -638,6 +645,10 @@ func (t *ftr) instr(in ssa.Instruction, cur *string) wrapper {
 				if tab, ok := tables[gn]; ok && isInt(arr.Elem()) {
 					return bind(in, fmt.Sprintf("tblZ %d %s %s", arr.Len(), tab, t.val(in.Index)))
 				}
+				if tab, ok := listTables[gn]; ok && isInt(arr.Elem()) {
+					// the Go array length is part of the definition: an index beyond it panics whatever the list holds
+					return bind(in, fmt.Sprintf("(if %s <? %d then nthZ %s %s else None)", t.val(in.Index), arr.Len(), tab, t.val(in.Index)))
+				}
 				bail("table %s is not mapped to a model constant", gn)
 			}
 		}
@@ -877,6 +888,19 @@ func (t *ftr) binop(in *ssa.BinOp, let func(ssa.Value, string) wrapper) wrapper 
 		return let(in, fmt.Sprintf("%s (%s - %s)", w, x, y))
 	case token.MUL:
 		return let(in, fmt.Sprintf("%s (%s * %s)", w, x, y))
+	case token.QUO, token.REM:
+		// Go: truncated division; a zero divisor panics; MinInt / -1 wraps
+		f := map[bool]map[token.Token]string{true: {token.QUO: "Z.quot", token.REM: "Z.rem"}, false: {token.QUO: "Z.div", token.REM: "Z.modulo"}}[s][in.Op]
+		e := fmt.Sprintf("%s %s %s", f, x, y)
+		if s && in.Op == token.QUO {
+			e = fmt.Sprintf("%s (%s)", w, e)
+		}
+		inner := let(in, e)
+		if c, ok := in.Y.(*ssa.Const); ok && c.Value != nil && constant.Sign(constant.ToInt(c.Value)) != 0 {
+			return inner
+		}
+		c := fmt.Sprint(in)
+		return func(nn node) node { return &nGuard{fmt.Sprintf("%s =? 0", y), "division by zero: " + c, inner(nn)} }
 	case token.AND:
 		return let(in, fmt.Sprintf("Z.land %s %s", x, y))
 	case token.OR:
@@ -1097,6 +1121,23 @@ func (t *ftr) edge(b *ssa.BasicBlock, si int, cur string) node {
 }
 
 func (t *ftr) block(b *ssa.BasicBlock, cur string) node {
+	if p, ok := b.Instrs[len(b.Instrs)-1].(*ssa.Panic); ok {
+		// the instructions of a block that ends in panic(...) only build the panic value (fmt.Sprintf, boxing):
+		// the block is None whatever they compute; they must not write memory we model or leave the block
+		for _, in := range b.Instrs {
+			switch in := in.(type) {
+			case *ssa.Store:
+				if _, fresh := in.Addr.(*ssa.IndexAddr); !fresh {
+					bail("store in a block that ends in panic: %s", in)
+				} else if _, ok := in.Addr.(*ssa.IndexAddr).X.(*ssa.Alloc); !ok {
+					bail("store in a block that ends in panic: %s", in)
+				}
+			case *ssa.Go, *ssa.Defer, *ssa.Send, *ssa.MapUpdate, *ssa.RunDefers:
+				bail("%s in a block that ends in panic", in)
+			}
+		}
+		return &nFail{fmt.Sprint(p)}
+	}
 	var ws []wrapper
 	var term ssa.Instruction
 	for _, in := range b.Instrs {
